@@ -14,6 +14,10 @@ plist = "\n\n".join("**%s — %s**\n%s\nQuantifier: %s\nWhere it lives: %s" % (p
 focus = {"A": "the glue around the protocol cores: the two main() functions (option parsing, start-up validation), tun.c, util.c, common.c helpers, the Makefile-generated base64u.c, header constants (encoding.h, version.h, common.h macros), struct layouts in user.h",
          "B": "interactions BETWEEN two properties or two modules: a change that is harmless for each function in isolation but breaks a property through their combination (client x server, codec x hostname builder, cache x fragment size, login x address pool, forwarding x tunnel traffic, raw mode x DNS mode)",
          "C": "state and time: behaviour that only differs after a counter wraps, after a timeout, after a slot is re-used, for the second session of a process, after an error path was taken once, or for particular clock values",
+         "E": "configuration corners: rarely used options and modes (source checking off with -c, wildcard-served domains, IPv6 listeners and askers, -n ns_ip, -b forwarding, fixed -m fragment size, forced -O / -T, lazy mode off, raw UDP mode, small -M) combined with ordinary protocol features",
+         "F": "numeric boundaries: 16 vs 17 fragments, payloads of 4094/4095/4096 bytes, names of 253/255/256 characters, labels of 63/64, passwords of 31/32/33 bytes, user ids 15/16, netmasks /8 and /30, sequence number 7 -> 0, fragment 15 -> 0, the CMC and query-id wrap-arounds, DNS id 0 and 65535, clock values around 2^31",
+         "G": "error and retry paths: what the programs do AFTER a BADIP / BADLEN / BADCODEC / BADFRAG / LNAK / VFUL / SERVFAIL, after a give-up, after a cache or query-memory hit, after a failed uncompress, after a refused login, after an option was refused, after a handshake step timed out and was retried",
+         "H": "several clients at once: slot allocation and re-use, user-to-user packets, one client's traffic affecting another's queue, cache or sequence numbers, per-user settings leaking between slots, the 16-user limit, clients behind the same address",
          "D": "input decoding and memory: hostile or unusual datagrams, boundary lengths, signedness and integer conversions, buffers filled exactly, residue of earlier messages, unusual but legal DNS encodings (compression, EDNS0, record types, case)"}[tag[-1]]
 text = f"""# Task: seed realistic property-breaking changes into a scratch copy of iodine (free-form round)
 
